@@ -15,7 +15,8 @@ import multiprocessing as mp
 import os
 
 from . import tm
-from .driver import Accounting, Task
+from .driver import Accounting, Suspend, Task
+from .instruments import Cancelled
 from .graph import build_paths
 from .report import Verdict
 from .tlc import MachineryError, read_ndjson, run_tlc
@@ -80,7 +81,8 @@ class World:
             raise self.exc_of(e)
         if beh == "reraise" and exc is not None:
             raise exc
-        return beh == "truthy"
+        # a suppressing exit says so with any true value, not only with True
+        return (True, 1, "yes", [0])[(e + self.salt) % 4] if beh == "truthy" else (False, 0, "", None)[(e + self.salt) % 4]
 
     def make(self, e, ckind, beh):
         """Return (register(stack) coroutine function for ExitStack-likes, context manager for nesting)."""
@@ -184,6 +186,10 @@ class World:
 
         nest = CBCM() if ckind in CB_KINDS else (contextlib.nullcontext() if False else ACM())
         return reg_async, reg_std, nest
+
+
+class EnterAttributeError(AttributeError):
+    pass
 
 
 class OuterError(Exception):
@@ -306,15 +312,39 @@ def _replay_path(args):
             if r[0] != "ok":
                 bad("register-raises", j, {"observed": repr(r[1])})
         elif op == "enterfail":
+            # how entering fails rotates: an ordinary error, an AttributeError (which must not be mistaken for
+            # "has no __aenter__": the manager also offers the synchronous protocol), or a cancellation that
+            # arrives while __aenter__ is suspended.  In no case may anything of it be registered.
+            mode = ("error", "attributeerror", "cancelled")[(salt + j) % 3]
+            thrown = Cancelled("cancel")
+
             class Failing:
                 async def __aenter__(self):
-                    raise EnterError()
+                    if mode == "cancelled":
+                        await Suspend(w.acct, ("aenter", 0))
+                    raise (EnterAttributeError if mode == "attributeerror" else EnterError)()
 
                 async def __aexit__(self, *a):
                     w.log.append((0, "failed-enter-exited"))
-            r = run(stack.enter_context(Failing()), w.acct)
-            if r[0] != "raised" or not isinstance(r[1], EnterError):
-                bad("enter-failure-not-propagated", j, {"observed": repr(r)})
+
+                def __enter__(self):
+                    w.log.append((0, "entered-through-the-synchronous-protocol"))
+                    return self
+
+                def __exit__(self, *a):
+                    w.log.append((0, "failed-enter-exited"))
+
+            if mode == "cancelled":
+                t_ = Task(stack.enter_context(Failing()), w.acct)
+                r = t_.step()
+                r = t_.throw(thrown) if r[0] == "token" else r
+                r = ("raised", r[1]) if r[0] == "raised" else ("ok", r[1])
+                ok = r[0] == "raised" and r[1] is thrown
+            else:
+                r = run(stack.enter_context(Failing()), w.acct)
+                ok = r[0] == "raised" and type(r[1]) is (EnterAttributeError if mode == "attributeerror" else EnterError)
+            if not ok:
+                bad("enter-failure-not-propagated", j, {"observed": repr(r), "mode": mode})
         elif op == "popall":
             stacks["moved"] = stack.pop_all()
             stds["moved"] = std.pop_all()
